@@ -170,10 +170,13 @@ func init() {
 	}
 
 	checks["C09"] = func(r *Report, p *Program, tier string) {
-		r.Explanation = "Decides acquire/close pairing of every socket on all paths to every return (T1, deferred or explicit; the listener's socket by its stop goroutine), a read deadline of exactly now+configured timeout before every blocking read (T2), that reader goroutines leave their loop on a failed read and their connection is closed by the parent (T7), lock release (T3) and that each lock holder computes its deadline after acquiring the lock (T4). Paths are enumerated with the read loops bounded at 2 iterations; the rules are loop-invariant. Not decided: wall-clock durations, descriptor or goroutine counts at run time."
+		r.Explanation = "Decides acquire/close pairing of every socket on all paths to every return (T1, deferred or explicit; the listener's socket by its stop goroutine), a read deadline of exactly now+configured timeout before every blocking read (T2), that reader goroutines leave their loop on a failed read and their connection is closed by the parent (T7) and leave it ONLY then, however many datagrams arrive (RD: never gives up early), lock release (T3) and that each lock holder computes its deadline after acquiring the lock (T4). Paths are enumerated with the read loops bounded at 2 iterations; the rules are loop-invariant. Not decided: wall-clock durations, descriptor or goroutine counts at run time."
 		r.Assumptions = []string{"a deadline on a net.Conn makes blocked reads return (package net)", "closing a socket unblocks readers", "go/ssa is faithful"}
 		RuleTransport(r, p, aspectSet{"T1": true, "T2": true, "T3": true, "T4": true})
 		RuleShare(r, p, aspectSet{"T7": true})
+		// never gives up early: a reader leaves its loop only after a failed read (deadline, closed socket), not after
+		// some number of datagrams (RD)
+		RuleDelivered(r, p, false)
 		// the listener's goroutines: the consumer ends on every return of Listen (LS3), the driver's two goroutines end after the stop signal (LS6)
 		r.Only = map[string]bool{"LS3": true, "LS6": true}
 		RuleListen(r, p)
@@ -253,7 +256,7 @@ func init() {
 	}
 
 	checks["C17"] = func(r *Report, p *Program, tier string) {
-		r.Explanation = "Decides that the client and its controller table are written only in the constructor (IM1), that Clone of a controller / card allocates every slice and map afresh and the constructor stores clones (IM2), that DeviceList returns a fresh map (IM3), that no operation stores through a reference argument (A7), that no decoder lets a view of the message buffer escape into a decoded value (K4, codec and every Unmarshaler) and that driver methods return buffers allocated in the call (T10). Not decided: deep immutability of strings and *time.Location (immutable by language/library)."
+		r.Explanation = "Decides that the client and its controller table are written only in the constructor (IM1), that Clone of a controller / card allocates every slice and map afresh and the constructor stores clones (IM2), that DeviceList returns a fresh map (IM3), that no operation stores through a reference argument, itself or through a function it hands the argument to (A7, callee summaries), that the listener's handler passes on only a value decoded from the datagram and allocated for it (LS1, LS2), that no decoder lets a view of the message buffer escape into a decoded value (K4, codec and every Unmarshaler) and that driver methods return buffers allocated in the call (T10). Not decided: deep immutability of strings and *time.Location (immutable by language/library)."
 		r.Assumptions = []string{"net.IPv4, make, composite literals and conversions allocate fresh storage", "go/ssa is faithful"}
 		c := NewCodec(r, p, true)
 		if c == nil {
@@ -265,13 +268,16 @@ func init() {
 		RuleTransport(r, p, aspectSet{"T10": true})
 		// the listener's reused receive buffer is handed to the handler synchronously by the read loop (a view of it
 		// that outlives the next read would change under the event being built)
-		r.Only = map[string]bool{"LS6": true}
+		// ... and what the handler passes on is a value decoded from the datagram and allocated for it, holding no
+		// reference to mutable storage (LS1, LS2): the datagram itself (a view of the reused buffer) never leaves
+		// the handler
+		r.Only = map[string]bool{"LS6": true, "LS1": true, "LS2": true}
 		RuleListen(r, p)
 		r.Only = nil
 	}
 
 	checks["C18"] = func(r *Report, p *Program, tier string) {
-		r.Explanation = "Decides, per field kind and per tag form and independently of the shipped messages: buffer accesses stay inside the field's width on encode and decode (K1), no view of the input escapes (K4), nested decode errors are enforced through embedding (K5), value tags are parsed with one base that admits the hexadecimal form the tag grammar allows (K6), encoder and decoder handle the same kind set incl. value/pointer interface dispatch (K7), byte order (K2), boolean table (K3), nil-tolerant decoders for pointer kinds (K11), fresh zeroed buffer (K8). Not decided: round-trip equality for generated layouts (value level)."
+		r.Explanation = "Decides, per field kind and per tag form and independently of the shipped messages: buffer accesses stay inside the field's width on encode and decode (K1), no view of the input escapes (K4), nested decode errors are enforced through embedding (K5), value tags are parsed with one base that admits the hexadecimal form the tag grammar allows (K6), encoder and decoder handle the same kind set incl. value/pointer interface dispatch (K7), byte order (K2), boolean table (K3), nil-tolerant decoders for pointer kinds (K11), fresh zeroed buffer (K8), a value: tag is emitted and enforced for every value of its constant (K19), and every index, slice, assertion and explicit panic of the codec package is discharged (P1/P3/P4 restricted to that package). Not decided: round-trip equality for generated layouts (value level)."
 		r.Assumptions = []string{"spec/kinds.json states the protocol encodings", "go/ssa is faithful"}
 		c := NewCodec(r, p, true)
 		if c == nil {
@@ -283,6 +289,9 @@ func init() {
 		RuleK4(r, c)
 		RuleK5(r, c)
 		RuleK6(r, c)
+		RuleK19(r, c)
+		// neither panics: the index, slice, assertion and explicit-panic sites of the codec package itself
+		RulePanicIn(r, p, tier, codecRel, map[string]int{"P1": 5, "P3": 0, "P4": 0})
 		RuleK7(r, c)
 		RuleK8(r, c)
 		RuleK11(r, c)
